@@ -39,6 +39,7 @@ static void env_str_reserve(struct env_str *s, u64 n)
   if (!env_str_local(s)) free(s->p);
   s->p = np; s->u.cap = n;
 }
+void X__ZNSt7__cxx1112basic_stringIcSt11char_traitsIcESaIcEE7reserveEm(u8 *self, u64 n) { env_str_reserve((struct env_str *)self, n); }
 void X__ZNSt7__cxx1112basic_stringIcSt11char_traitsIcESaIcEE12_M_constructEmc(u8 *self, u64 n, u8 c)
 {
   struct env_str *s = (struct env_str *)self;
